@@ -186,10 +186,16 @@ def leaf(binary_only_dates=False):
     return st.one_of(*opts)
 
 
+# map keys are text like any other: non-ASCII (multi-byte in UTF-8), blanks, quotes and XML metacharacters included
+KEYS = st.one_of(st.text(st.characters(min_codepoint=0x21, max_codepoint=0x7E), max_size=6),
+                 st.text(st.one_of(st.characters(min_codepoint=0x20, max_codepoint=0x7E), st.sampled_from(list("é中\U0001F600ß"))), min_size=1, max_size=5),
+                 st.sampled_from(["é", "中文", "k\U0001F600", "a b", "<k>", "q'\"", "ключ"]))
+
+
 def tree(binary_only_dates=False):
     return st.recursive(leaf(binary_only_dates), lambda ch: st.one_of(
         st.lists(ch, max_size=4), st.lists(ch, max_size=3).map(lambda l: ("tuple", l)),
-        st.dictionaries(st.text(st.characters(min_codepoint=0x21, max_codepoint=0x7E), max_size=6), ch, max_size=4)), max_leaves=12)
+        st.dictionaries(KEYS, ch, max_size=4)), max_leaves=12)
 
 
 def build_tree(t):
